@@ -1,8 +1,8 @@
 INIT Init
 NEXT Next
 CONSTANTS
-  Dev = {"skip_only_function"}
-  Kinds = {"sig"}
+  Dev = {"no_unichar_constant"}
+  Kinds = {"constsize"}
   Strict = FALSE
   Full = FALSE
   MaxCnt = 1
